@@ -66,6 +66,11 @@ CHECKS = {
    text="Exhaustive within the bound: every history of <=3 (quick) / <=4 (thorough) operations {Parse, Render, Exec, Clone, Toggle} over 3 texts x 2 data sets plus seeded random walks; on the real code the outcome of each Parse (fresh / hit / inserted) must be the model's, all results for equal (text, data) must be identical (output, error text, helper-call order), and the deep structural hash of the parsed program (verif accessor) must be unchanged by every Exec. Every corpus program (about 200 quick / 2400 thorough, from the loop/fault/scope/text/function/route generators plus hash literals with side effects and duplicate keys) is executed 8 times over fresh parse, repeated Exec, Clone, cache cold/warm. The repository suite's cache events are accepted by the trace spec; a corrupted trace is rejected.",
    note="Trusted: TLC, the reflection-based tree hash, the hooks. Go map iteration order dependence is caught probabilistically (8 executions). Programs that loop over Go maps are compared as sets in C08 and excluded here.",
    design="§6 C13"),
+ "C14": dict(
+   technique="TLC explicit-state model checking of all interleavings of lock/access micro-steps (Concurrency.tla: NoRace, InsertOnce, deadlock freedom, liveness Finishes); every operation mix emitted by TLC run as real goroutines in a Go race-detector (-race) build of the conformance driver, plus corpus templates executed from 2-32 goroutines with results compared with sequential execution",
+   text="Exhaustive within the bound: all assignments of 8 operations to 2 goroutines x 1 operation (quick; + 3 goroutines x 1 and 2 goroutines x 2 operations thorough) with every interleaving of their lock / begin-access / end-access steps; the unlocked-read variant of the pinned commit and a split-lock Parse are shown to violate the invariants. On the real code every distinct mix runs as 2 real goroutines per model goroutine for 1500 rounds under the race detector; corpus templates (loops, scopes, partials, faults; more generators in thorough) run from 2/8/32 goroutines with own child contexts of a shared parent or own roots, cache off/on: any race report, runtime abort, panic or result differing from the sequential result is a violation.",
+   note="Race freedom of the implementation is observed by the race detector on the schedules that occur (probabilistic); the model decides the design's lock discipline for all interleavings. Needs cgo (race detector) - present in this sandbox.",
+   design="§6 C14"),
 }
 
 NOT_YET = "check not built yet in this session (work in progress, see DESIGN.md §8)"
